@@ -51,3 +51,67 @@ package par
 //@   requires c != nil
 //@   nocall (*sync.Mutex).Lock, (*sync.Cond).Wait
 //@   ensures result == nil || (gCalls[unbox(entryBox(c, key))] == 1 && result == gR[unbox(entryBox(c, key))])
+
+// ---- Work (C09): rely-guarantee over the runner bookkeeping ----
+//@ property C09: (*Work).init, (*Work).Add, (*Work).Do, (*Work).runner
+//@ shared Work.waiting, Work.todo, Work.added, gS, gK, gX, gF
+//
+//@ pure func sum4(a int, b int, c int, d int) int = a + b + c + d
+//
+// While the Work's mutex is free: waiting counts exactly the sleeping, signalled and
+// exited runners; nobody sleeps once all runners are accounted for as waiting; and if
+// work is queued and nobody has exited, not every runner is asleep (no lost wake-up).
+//@ ginv workNonneg: forall x int {gS[x]} {gK[x]} {gX[x]} {gF[x]} :: gS[x] >= 0 && gK[x] >= 0 && gX[x] >= 0 && gF[x] >= 0
+//@ ginv workWaiting: forall x int {fld(Work, waiting)[x]} :: !gHeld[x] ==> fld(Work, waiting)[x] == gS[x] + gK[x] + gX[x]
+//@ ginv workBound: forall x int {gF[x]} :: !gHeld[x] && fld(Work, running)[x] > 0 ==> sum4(gS[x], gK[x], gX[x], gF[x]) <= fld(Work, running)[x]
+//@ ginv workDone: forall x int {gS[x]} :: !gHeld[x] && fld(Work, running)[x] > 0 && fld(Work, waiting)[x] == fld(Work, running)[x] ==> gS[x] == 0
+//@ ginv workAwake: forall x int {gS[x]} :: !gHeld[x] && len(fld(Work, todo)[x]) > 0 && gX[x] == 0 && fld(Work, running)[x] > 0 ==> gS[x] < fld(Work, running)[x]
+//
+//@ rely workRely: forall x int {fld(Work, waiting)[x]} {fld(Work, todo)[x]} {gS[x]} {gK[x]} {gX[x]} {gF[x]} :: (x == myHeld && x != 0 ==> fld(Work, waiting)[x] == old(fld(Work, waiting))[x] && sameSlice(fld(Work, todo)[x], old(fld(Work, todo))[x]) && fld(Work, added)[x] == old(fld(Work, added))[x] && gS[x] == old(gS)[x] && gK[x] == old(gK)[x] && gX[x] == old(gX)[x] && gF[x] == old(gF)[x]) && (myR == 1 && sum4(old(gS)[x], old(gK)[x], old(gX)[x], old(gF)[x]) <= fld(Work, running)[x] - 1 ==> sum4(gS[x], gK[x], gX[x], gF[x]) <= fld(Work, running)[x] - 1) && (myF == 1 && old(gF)[x] >= 1 ==> gF[x] >= 1)
+//
+//@ guar workGuar: forall x int {fld(Work, waiting)[x]} {fld(Work, todo)[x]} {gS[x]} {gK[x]} {gX[x]} {gF[x]} :: (x != myHeld && x != old(myHeld) ==> fld(Work, waiting)[x] == old(fld(Work, waiting))[x] && sameSlice(fld(Work, todo)[x], old(fld(Work, todo))[x]) && fld(Work, added)[x] == old(fld(Work, added))[x] && gS[x] == old(gS)[x] && gK[x] == old(gK)[x] && gX[x] == old(gX)[x] && gF[x] == old(gF)[x])
+
+// sync.Cond on a Work (baseOf(c) is the Work): Wait is a blocking call in two phases;
+// it returns only to a runner that was moved from sleeping to signalled.
+//@ extern (*sync.Cond).Wait(c)
+//@   requires myHeld == baseOf(c) && baseOf(c) != 0 && myR == 1
+//@   modifies gHeld, myHeld, gS, myR
+//@   ensures !gHeld[baseOf(c)] && myHeld == 0 && myR == 0 && gS[baseOf(c)] == old(gS)[baseOf(c)] + 1
+//@   ensures forall x int {gHeld[x]} {gS[x]} :: x != baseOf(c) ==> gHeld[x] == old(gHeld)[x] && gS[x] == old(gS)[x]
+//@   then modifies gHeld, myHeld, gK, myR
+//@   then ensures !old(gHeld)[baseOf(c)] && gHeld[baseOf(c)] && myHeld == baseOf(c) && myR == 1 && old(gK)[baseOf(c)] >= 1 && gK[baseOf(c)] == old(gK)[baseOf(c)] - 1
+//@   then ensures forall x int {gHeld[x]} {gK[x]} :: x != baseOf(c) ==> gHeld[x] == old(gHeld)[x] && gK[x] == old(gK)[x]
+//@ extern (*sync.Cond).Signal(c)
+//@   modifies gS, gK
+//@   ensures old(gS)[baseOf(c)] > 0 ==> gS[baseOf(c)] == old(gS)[baseOf(c)] - 1 && gK[baseOf(c)] == old(gK)[baseOf(c)] + 1
+//@   ensures old(gS)[baseOf(c)] <= 0 ==> gS[baseOf(c)] == old(gS)[baseOf(c)] && gK[baseOf(c)] == old(gK)[baseOf(c)]
+//@   ensures forall x int {gS[x]} {gK[x]} :: x != baseOf(c) ==> gS[x] == old(gS)[x] && gK[x] == old(gK)[x]
+//@ extern (*sync.Cond).Broadcast(c)
+//@   modifies gS, gK
+//@   ensures gS[baseOf(c)] == 0 && gK[baseOf(c)] == old(gK)[baseOf(c)] + old(gS)[baseOf(c)]
+//@   ensures forall x int {gS[x]} {gK[x]} :: x != baseOf(c) ==> gS[x] == old(gS)[x] && gK[x] == old(gK)[x]
+
+//@ func (*Work).init
+//@   requires w != nil && myHeld == w
+//@   modifies F_S_par_Work_added, Md_*, Mv_*
+//@   ensures w.added != nil && myHeld == w
+
+// Add: under the lock; the invariant holds again when the lock is released.
+//@ func (*Work).Add
+//@   requires w != nil && myHeld == 0 && myR == 0
+//@   ensures myHeld == 0
+
+// runner: f runs outside the lock while the runner is counted in gF; the runner
+// returns only when no call of f is in progress and nothing is left to do.
+//@ func (*Work).runner
+//@   requires w != nil && myHeld == 0 && myR == 1 && myF == 0 && w.running > 0
+//@   requires sum4(gS[w], gK[w], gX[w], gF[w]) <= w.running - 1
+//@   callee w.f(item): pure
+//@   at call (*sync.Mutex).Lock#1: ghost_after gF[w] = gF[w] - myF; myR = myR + myF; myF = 0
+//@   at call (*sync.Mutex).Unlock#1: requires gF[w] == 0 && len(w.todo) == 0
+//@   at call (*sync.Mutex).Unlock#1: ghost gX[w] = gX[w] + 1; myR = 0
+//@   at call (*sync.Mutex).Unlock#2: ghost gF[w] = gF[w] + 1; myF = 1; myR = 0
+//@   at call field:w.f#1: requires myHeld == 0 && myF == 1 && gF[w] >= 1
+//@   loop 1: invariant myHeld == 0 && myR + myF == 1 && myR >= 0 && myF >= 0 && (myR == 1 ==> sum4(gS[w], gK[w], gX[w], gF[w]) <= w.running - 1) && (myF == 1 ==> gF[w] >= 1)
+//@   loop 2: invariant myHeld == w && myR == 1 && myF == 0 && sum4(gS[w], gK[w], gX[w], gF[w]) <= w.running - 1 && w.waiting == gS[w] + gK[w] + gX[w]
+//@   ensures myHeld == 0
